@@ -454,7 +454,19 @@ def exec_a(sc, ctx):
                 if str(pathlib.PurePosixPath(sp)) == sp:  # pathlib normalises './x', 'x/': only spellings it keeps
                     arg = pathlib.PurePosixPath(sp)
             elif pr.get("via") == "copy" and sp != "-":
-                o0 = run_op(lambda: Path(sp, "", **kw))
+                # the source object was built under another mode: none, the same flags in another order, or with
+                # one 'c' more / less - the copy must be judged by the file system for ITS mode all the same
+                m0 = ""
+                pick = i % 4
+                if pick == 1:
+                    m0 = m[::-1]
+                elif pick == 2 and "c" in m:
+                    m0 = m + "c" if m.count("c") == 1 else m.replace("c", "", 1)
+                elif pick == 3:
+                    m0 = "".join(c for c in m if c in "fdc")
+                o0 = run_op(lambda: Path(sp, m0, **kw))
+                if o0.kind != "ret" and m0:
+                    o0 = run_op(lambda: Path(sp, "", **kw))
                 if o0.kind == "ret":
                     arg, kw = o0.value, {}
             o = run_op(lambda: Path(arg, m, **kw))
